@@ -16,9 +16,9 @@ for a, b, c, d, e in itertools.product([False, True], repeat=5):   # same order 
     fx = lambda x: "fixed" if x else "current"
     VARIANTS.append({"name": "endctx=%s,verify=%s,panic=%s,chunk=%s,clone=%s" % (fx(a), fx(b), fx(c), fx(d), fx(e)),
                      "findings": [f for f, fixed in zip(FIX, (a, b, c, d, e)) if not fixed]})
-RULE = ("configuration cases = source {dataset, sample, slow, http remote, http remote stalling mid-body} x transform {none, js, js with parallelism 10 on pages of 15, js whose transform stage panics (injected by the harness), js that returns no entity, a JavascriptTransform block without code} x sink "
+RULE = ("configuration cases = source {dataset, sample, slow, http remote, http remote stalling mid-body, proxy dataset with a silent remote, union source re-defined with fewer members after a run} x transform {none, js, js with parallelism 10 on pages of 15, js whose transform stage panics (injected by the harness), js that returns no entity, a JavascriptTransform block without code} x sink "
         "{devnull, dataset, dataset that does not exist} x trigger {cron, onchange} x job type x handler set {none, log, rerun, "
-        "log+rerun, unknown type, 'Log'} (+ kill for the slow source and the http remotes, which stall when the job is to be killed): the whole lattice (thorough, 3456 configurations) or the "
+        "log+rerun, unknown type, 'Log'} (+ kill for the slow source and the http remotes, which stall when the job is to be killed): the whole lattice (thorough, 4320 configurations) or the "
         "witnesses plus a PRNG sample of 45 (quick), each through Scheduler.AddJob and the real trigger path in its own process; "
         "barrier cases = 2-8 requesters for ONE job id (mixed flavours) released together by a spinning gate, 10000 (quick) / 100000 (thorough) rounds each, calling raffle.borrowTicket directly; per round the number of tickets held at once; "
         "raffle cases = pool sizes x job objects (ids shared between objects, both kinds) x 4-12 goroutines x 20-60 Run calls each; "
@@ -38,14 +38,14 @@ ASSUMPTIONS = [
 ]
 EXHAUSTIVE = {"thorough": True}
 
-SRC = ["dataset", "sample", "slow", "http", "httpmid"]
+SRC = ["dataset", "sample", "slow", "http", "httpmid", "proxy", "union"]
 KILLABLE = ("slow", "http", "httpmid")
 TR = ["none", "js", "jspar", "panic", "empty", "nocode"]
 SNK = ["devnull", "dataset", "missing"]
 TRIG = ["cron", "onchange"]
 JT = ["incremental", "fullsync"]
 HS = ["none", "log", "rerun", "logrerun", "bad", "Log"]
-COQ = {"dataset": "SDataset", "sample": "SSample", "slow": "SSlow", "http": "SHttp", "httpmid": "SHttpMid", "nocode": "TNoCode", "none": "TNone", "js": "TJs", "panic": "TPanic", "jspar": "TJsPar", "empty": "TEmpty",
+COQ = {"dataset": "SDataset", "sample": "SSample", "slow": "SSlow", "http": "SHttp", "httpmid": "SHttpMid", "proxy": "SProxy", "union": "SUnion", "nocode": "TNoCode", "none": "TNone", "js": "TJs", "panic": "TPanic", "jspar": "TJsPar", "empty": "TEmpty",
        "devnull": "KDevNull", "missing": "KMissing", "cron": "GCron", "onchange": "GOnChange", "incremental": "JIncr",
        "fullsync": "JFull"}
 COQ_SNK = {"devnull": "KDevNull", "dataset": "KDataset", "missing": "KMissing"}
@@ -111,6 +111,11 @@ def witness_cases():
         cfg(source="http"), cfg(source="httpmid", jobType="fullsync", sink="dataset"), cfg(source="http", transform="js", handlers="log"),
         cfg(source="http", kill=True), cfg(source="httpmid", kill=True), cfg(source="http", kill=True, jobType="fullsync", handlers="rerun"),
         cfg(source="httpmid", kill=True, trigger="onchange", sink="dataset"),
+        # proxy dataset whose remote stays silent (the request must time out), union job re-defined with fewer members
+        cfg(source="proxy"), cfg(source="proxy", jobType="fullsync", handlers="log", transform="js"),
+        cfg(source="proxy", trigger="onchange", sink="dataset", handlers="rerun"),
+        cfg(source="union"), cfg(source="union", jobType="fullsync", sink="dataset"),
+        cfg(source="union", trigger="onchange", handlers="log", transform="js"),
     ]
 
 
@@ -149,7 +154,7 @@ def gen(rng, tier):
 
 
 DIED = {"accepted": False, "live": "died", "result": "none", "stored": "none", "ticket": False, "log": [], "finalF": -1,
-        "finalI": -1, "running": -1, "hist": [], "badAcct": -1}
+        "finalI": -1, "running": -1, "hist": [], "badAcct": -1, "rounds": 0}
 
 
 def run(binp, cases):
@@ -186,10 +191,10 @@ def term(c, o):
             gauge.append("(%s, %s)" % (vlib.coq_bool(e[1] == 1), vlib.zlit(e[2])))
     reqs = vlib.coq_list([vlib.coq_bool(x) for x in c.get("reqs", [])])
     hist = vlib.coq_list([vlib.zlit(x) for x in o.get("hist") or []])
-    return ("{| t_distinct := %s; t_barrier := %s; t_reqs := %s; t_rounds := %d; ob_hist := %s; ob_badacct := %s; t_iscfg := %s; t_c := %s; t_capF := %d; t_capI := %d; ob_outcome := %d; ob_accepted := %s; ob_live := %d; "
+    return ("{| t_distinct := %s; t_barrier := %s; t_reqs := %s; t_rounds := %d; ob_rounds := %d; ob_hist := %s; ob_badacct := %s; t_iscfg := %s; t_c := %s; t_capF := %d; t_capI := %d; ob_outcome := %d; ob_accepted := %s; ob_live := %d; "
             "ob_result := %d; ob_stored := %d; ob_ticket := %s; ob_log := %s; ob_gauge := %s; ob_finalF := %s; ob_finalI := %s; "
             "ob_running := %s |}" % (
-                vlib.coq_bool(c.get("distinct", False)), vlib.coq_bool(c["kind"] == "barrier"), reqs, c.get("rounds", 0), hist, vlib.zlit(o.get("badAcct", -1)),
+                vlib.coq_bool(c.get("distinct", False)), vlib.coq_bool(c["kind"] == "barrier"), reqs, c.get("rounds", 0), o.get("rounds", 0) if isinstance(o.get("rounds", 0), int) else 0, hist, vlib.zlit(o.get("badAcct", -1)),
                 vlib.coq_bool(c["kind"] == "cfg"), cf, capF, capI, 0 if o.get("outcome") == "ok" else 1,
                 vlib.coq_bool(o.get("accepted", False)), LIVE.get(o.get("live"), 9), RES.get(o.get("result"), 9),
                 RES.get(o.get("stored"), 9), vlib.coq_bool(o.get("ticket", False)), vlib.coq_list(log), vlib.coq_list(gauge),
